@@ -1,4 +1,4 @@
-(* source: pdb2sql/StructureSimilarity.py:1221-1242 sha1 e84818febd8d9efcdd15df7caa510bf4994710df *)
+(* source: pdb2sql/StructureSimilarity.py:1215-1236 sha1 e84818febd8d9efcdd15df7caa510bf4994710df *)
 Definition scale_rms_src (rms_1 d_2 : Q) : Q := (Qdiv (1 # 1) (Qplus (1 # 1) (Qsqr (Qdiv rms_1 d_2)))).
 Definition dockq_raw_src (fnat_1 lrmsd_2 irmsd_3 d1_4 d2_5 : Q) : Q := (Qmult (Qdiv (1 # 1) (3 # 1)) (Qplus (Qplus fnat_1 (scale_rms_src lrmsd_2 d1_4)) (scale_rms_src irmsd_3 d2_5))).
 Definition dockq_digits_src : nat := 6%nat.
